@@ -57,6 +57,19 @@ def parse_cache(p):
                 chansess=chansess)
 
 
+def parse_me(p):
+    """a user's `me` topic: who is attached, the contact table (name -> (last known online, notifications enabled)) and whether the
+    user has been announced online"""
+    c = parse_cache(p.split(" contacts[")[0])
+    contacts = {}
+    for e in _bracket(p, "contacts").split():
+        f = e.rsplit(":", 2)
+        contacts[f[0]] = (f[1] == "1", f[2] == "1")
+    c["contacts"] = contacts
+    c["announced"] = p.endswith(" announced") or " announced " in p
+    return c
+
+
 def parse_store(p):
     ws = p.split(" ")
     head = p.split(" subs[")[0]
@@ -90,11 +103,13 @@ def parse_store(p):
 
 
 class Line:
-    __slots__ = ("raw", "frames", "pushes", "calls", "cache", "store", "sess", "plain")
+    __slots__ = ("raw", "frames", "pushes", "calls", "cache", "store", "sess", "plain", "me", "meframes", "mesess")
 
     def __init__(self, raw):
         self.raw = raw
         self.frames, self.pushes, self.calls, self.cache, self.store, self.sess = [], [], [], {}, {}, {}
+        # the users' `me` topics are kept apart: caches under the user's name, frames which name the topic `me`, attachments
+        self.me, self.meframes, self.mesess = {}, [], {}
         self.plain = None
         if " | " not in raw and not raw.startswith("calls="):
             self.plain = raw
@@ -103,6 +118,9 @@ class Line:
             p = p.strip()
             if p.startswith("calls="):
                 self.calls = [c for c in p[6:].split(",") if c]
+            elif p.startswith("cache ") and re.match(r"^cache U\d+ ", p):
+                c = parse_me(p)
+                self.me[c["name"]] = c
             elif p.startswith("cache "):
                 c = parse_cache(p)
                 self.cache[c["name"]] = c
@@ -113,10 +131,16 @@ class Line:
                 self.pushes.append(_kv(p.split(" ")[1:]))
             elif re.match(r"^S\d+\{", p):
                 sid, rest = p.split("{", 1)
-                self.sess[sid] = set(x for x in rest.rstrip("}").split(",") if x)
+                names = [x for x in rest.rstrip("}").split(",") if x]
+                self.sess[sid] = set(x for x in names if not re.fullmatch(r"U\d+", x))
+                self.mesess[sid] = set(x for x in names if re.fullmatch(r"U\d+", x))
             elif "<-" in p:
                 sid, f = p.split("<-", 1)
-                self.frames.append((sid, f))
+                fw = f.split(" ")
+                if len(fw) > 2 and (fw[2] if fw[0] == "ctrl" else fw[1]) == "me":
+                    self.meframes.append((sid, f))
+                else:
+                    self.frames.append((sid, f))
 
 
 class Case:
@@ -146,6 +170,11 @@ class Case:
         self.p2p_arg = {}          # index -> the name the client used
         for i, o in enumerate(ops):
             w = o.split(" ")
+            # requests to the own `me` topic and the idle timer of one are kept apart from those to group and p2p topics
+            if w[0] in self.P2P_OPS and len(w) > 2 and w[2] == "me":
+                w[0] = "me" + w[0]
+            if w[0] == "unload" and len(w) > 1 and re.fullmatch(r"U\d+", w[1]):
+                w[0] = "meunload"
             if w[0] in self.P2P_OPS and len(w) > 2 and w[2].startswith("chn:"):
                 # the channel spelling of a group name: the monitors work on the group name; how the request and each frame spelled
                 # it is kept aside (`via_chn`, the `@chn` mark at the end of a frame)
@@ -426,6 +455,22 @@ def mon_C03(case):
     out = []
     for i, (o, ln) in enumerate(zip(case.ops, case.lines)):
         w = o.split(" ")
+        if w[0] == "mepub" and ln.plain is None:
+            # the own `me` topic takes no messages: refused with an error, nothing stored, nobody told
+            pre = prev_state(case, i)
+            mine = [f for sid, f in ln.meframes if sid == w[1]]
+            if any(f.startswith("ctrl 2") for f in mine):
+                out.append((i, f"C03 publish to `me` from {w[1]} accepted ({mine[0]}) although a self topic takes no messages"))
+            elif not mine or not mine[0].startswith("ctrl ") or int(mine[0].split(" ")[1]) < 400:
+                out.append((i, f"C03 rejected publish to `me` answered with `{mine[0] if mine else 'silence'}` instead of an error"))
+            others = [(sid, f) for sid, f in ln.frames + ln.meframes if sid != w[1]]
+            if others or ln.pushes:
+                out.append((i, f"C03 publish to `me` produced traffic for other sessions: {others[:1]} {ln.pushes[:1]}"))
+            if ln.calls:
+                out.append((i, f"C03 publish to `me` reached the store: {','.join(ln.calls)}"))
+            if pre is not None and state_of(ln) != state_of(pre):
+                out.append((i, "C03 publish to `me` changed the topic or store state"))
+            continue
         if w[0] != "pub" or ln.plain is not None or len(w) < 4:
             continue
         w, pre, act = pub_expect(case, i)
@@ -1057,6 +1102,142 @@ def mon_C10(case):
                 out.append((i, f"C10 presence `{what}` on {t} delivered to {sid} of {uid} whose permissions {modes} lack presence"))
             if not modes and what not in ("acs", "gone"):
                 out.append((i, f"C10 presence `{what}` on {t} delivered to {sid} of {uid} who is not subscribed"))
+    return out + mon_C10_me(case)
+
+
+def _sub_modes(lns, topic, user, chan=False):
+    """effective modes of the user's subscription row to the topic in the given digests (deleted rows excluded), and whether any
+    row - deleted or not - is there at all"""
+    modes, known, givens = [], False, []
+    for l in lns:
+        if l is None:
+            continue
+        row = l.store.get(topic)
+        c = l.cache.get(topic)
+        r = None
+        if c is not None and user in c["users"]:
+            # the loaded topic decides by what it holds in memory (that memory and store agree is C08's business)
+            r = c["users"][user]
+        elif row is not None:
+            r = row["csubs" if chan else "subs"].get(user)
+        if r is None:
+            continue
+        known = True
+        if not r["deleted"]:
+            modes.append(eff(r["want"], r["given"]))
+            givens.append(r["given"])
+    return modes, known, givens
+
+
+def mon_C10_me(case):
+    """the `me` part of C10: (a) what a topic tells a user who is not attached to it reaches only sessions attached to that user's
+    `me`, only subscribers, and - permission changes and removals apart - only those with presence permission (and read permission for
+    receipts relayed as {info}); (b) whenever activity has settled (every attached session in the foreground, no loaded topic without
+    a session) and no store failure was injected, the contact table of every user on `me` says `online` about a p2p partner (presence
+    on both sides) iff the partner is on `me`, and about a group the user is a member of (with presence) iff the group is loaded"""
+    out = []
+    bg = {s: v["bg"] for s, v in case.sess.items()}
+    faulted = False
+    phantom = set()        # topics with a subscription left behind by a request which was refused (reported by C07/C08: [phantom-sub])
+    for i, (o, ln) in enumerate(zip(case.ops, case.lines)):
+        w = o.split(" ")
+        if w[0] == "fg" and len(w) > 1:
+            bg[w[1]] = False
+        if w[0] in ("fail", "crash"):
+            faulted = True
+        if ln.plain is not None:
+            continue
+        pre = prev_state(case, i)
+        if w[0] in ("sub", "newgrp") and len(w) > 1 and pre is not None:
+            codes = [int(f.split(" ")[1]) for sid, f in ln.frames + ln.meframes if sid == w[1] and f.startswith("ctrl ")]
+            if not codes or min(codes) >= 300:
+                for t, row in ln.store.items():
+                    old = pre.store.get(t)
+                    live = {u for u, r in row["subs"].items() if not r["deleted"]}
+                    was = {u for u, r in old["subs"].items() if not r["deleted"]} if old else set()
+                    if live - was:
+                        phantom.add(t)
+        # (a)
+        for sid, f in ln.meframes:
+            fw = f.split(" ")
+            if fw[0] not in ("pres", "info"):
+                continue
+            u = case.sess.get(sid, {}).get("user")
+            k = frame_kv(f)
+            what, src = k.get("what", ""), k.get("src", "-")
+            att = any(l is not None and sid in l.me.get(u, {}).get("sess", {}) for l in (ln, pre))
+            if not att:
+                out.append((i, f"C10 [me-unattached] `{fw[0]} {what}` about {src} delivered on `me` to {sid} which is not attached to `me`"))
+                continue
+            if re.fullmatch(r"U\d+", src):
+                topic, chan = "P:" + ":".join(sorted([u, src])), False
+            elif src.startswith("chn:"):
+                topic, chan = src[4:], True
+            else:
+                topic, chan = src, False
+            modes, known, givens = _sub_modes((ln, pre), topic, u, chan)
+            if not known and not chan:
+                # a channel reader whose record has just been dropped is addressed under the group's name: not a stranger
+                modes, known, givens = _sub_modes((ln, pre), topic, u, True)
+            if not known:
+                out.append((i, f"C10 [me-stranger] `{fw[0]} {what}` about {src} delivered on `me` to {sid} of {u} who has no subscription to it"))
+                continue
+            if what in ("acs", "gone"):
+                continue
+            if not modes:
+                out.append((i, f"C10 [me-removed] `{fw[0]} {what}` about {src} delivered on `me` to {sid} of {u} whose subscription is deleted"))
+            elif not any(has(m, "P") for m in modes):
+                out.append((i, f"C10 [me-muted:{what}] `{fw[0]} {what}` about {src} delivered on `me` to {sid} of {u} whose permissions {modes} lack presence"))
+            elif not any(has(g, "J") for g in givens):
+                # banned = the topic's managers took J away; a user who dropped J from the own request has left of the own accord
+                out.append((i, f"C10 [me-banned:{what}] `{fw[0]} {what}` about {src} delivered on `me` to {sid} of {u} who is banned (granted {givens})"))
+            elif fw[0] == "info" and not any(has(m, "R") for m in modes):
+                out.append((i, f"C10 [me-info-unread] receipt `{what}` about {src} relayed on `me` to {sid} of {u} whose permissions {modes} lack read"))
+        # (b)
+        if faulted:
+            continue
+        att_bg = [sid for sid in case.sess if bg.get(sid) and (ln.sess.get(sid) or ln.mesess.get(sid))]
+        idle = [t for t, c in list(ln.cache.items()) + list(ln.me.items()) if not c["sess"]]
+        if att_bg or idle:
+            continue
+        for ou, m in ln.me.items():
+            if not m["announced"]:
+                continue
+            for key, row in ln.store.items():
+                if row["state"] != 0 or key in phantom:
+                    continue
+                mine = row["subs"].get(ou)
+                if key in ln.cache:
+                    # the loaded topic decides by what it holds in memory (that memory and store agree is C08's business)
+                    mine = ln.cache[key]["users"].get(ou)
+                if mine is None or mine["deleted"] or not has(eff(mine["want"], mine["given"]), "P") or mine.get("chan"):
+                    continue        # (a channel reader is not a member: channels do not report being online)
+                if not has(eff(mine["want"], mine["given"]), "J"):
+                    continue        # banned, or left by dropping J: told nothing but changes to the subscription
+                if key.startswith("P:"):
+                    others = [x for x in key[2:].split(":") if x != ou]
+                    if len(others) != 1:
+                        continue
+                    x = others[0]
+                    theirs = ln.cache[key]["users"].get(x) if key in ln.cache else row["subs"].get(x)
+                    if theirs is None or theirs["deleted"] or not has(eff(theirs["want"], theirs["given"]), "P") \
+                            or not has(eff(theirs["want"], theirs["given"]), "J"):
+                        continue
+                    expect = x in ln.me and bool(ln.me[x]["sess"]) and ln.me[x]["announced"]
+                    got = m["contacts"].get(x, (False, False))[0]
+                    if got != expect:
+                        out.append((i, f"C10 [p2p-converge] after `{w[0]}` everything is settled, {x} is {'on' if expect else 'not on'} `me`, "
+                                       f"but {ou} was last told that {x} is {'online' if got else 'offline'}"))
+                else:
+                    expect = key in ln.cache
+                    got = m["contacts"].get(key, (False, False))[0]
+                    if got != expect:
+                        c = ln.cache.get(key)
+                        tag = "grp-converge"
+                        if c is not None and c["sess"] and all(sid in c["chansess"] for sid in c["sess"]):
+                            tag = "grp-converge:readers-only"     # every attached session is a channel reader's
+                        out.append((i, f"C10 [{tag}] after `{w[0]}` everything is settled, {key} is {'loaded' if expect else 'not loaded'}, "
+                                       f"but its member {ou} was last told that it is {'online' if got else 'offline'}"))
     return out
 
 
@@ -1066,7 +1247,10 @@ REQS = ("newgrp", "sub", "leave", "pub", "get", "setsub", "setdesc", "settags", 
 
 
 def replied(ln, sid):
-    return any(s == sid for s, f in ln.frames)
+    return any(s == sid for s, f in ln.frames) or any(s == sid for s, f in ln.meframes)
+
+
+ME_REQS = ("mesub", "meleave", "mepub", "meget")
 
 
 def silent_why(case, i, w, ln):
@@ -1090,6 +1274,9 @@ def mon_C13(case):
         w = o.split(" ")
         if ln.plain in ("panic", "crash"):
             out.append((i, f"C13 the server panicked while processing `{o}`"))
+            continue
+        if ln.plain is None and w[0] in ME_REQS and not any(s == w[1] and f.split(" ")[0] in ("ctrl", "meta") for s, f in ln.meframes):
+            out.append((i, f"C13 request `{w[0][2:]}` on `me` from {w[1]} was not answered"))
             continue
         if ln.plain is not None or w[0] not in REQS:
             continue
@@ -1124,6 +1311,21 @@ def mon_C14(case):
             for sid in c["sess"]:
                 if t not in ln.sess.get(sid, set()):
                     out.append((i, f"C14 after `{w[0]}` topic {t} lists session {sid} but the session does not list the topic"))
+        # … the users' `me` topics included
+        for sid, tops in ln.mesess.items():
+            for t in tops:
+                if t not in ln.me or sid not in ln.me[t]["sess"]:
+                    out.append((i, f"C14 after `{w[0]}` session {sid} lists `me` of {t} but that topic does not list the session"))
+        for t, c in ln.me.items():
+            for sid, u in c["sess"].items():
+                if t not in ln.mesess.get(sid, set()):
+                    out.append((i, f"C14 after `{w[0]}` `me` of {t} lists session {sid} but the session does not list it"))
+                if u != t:
+                    out.append((i, f"C14 after `{w[0]}` `me` of {t} has session {sid} attached for {u}"))
+        if w[0] in ME_REQS:
+            nrep = len([f for sid, f in ln.meframes if sid == w[1] and f.startswith("ctrl ")])
+            if nrep > 1:
+                out.append((i, f"C14 request `{w[0][2:]}` on `me` from {w[1]} was answered twice"))
         if w[0] in ("sub", "leave", "deltopic", "delsub", "newgrp", "pub", "setsub", "setdesc", "settags", "delmsg"):
             # one request, one reply: an eviction notice (205) is not a reply
             nrep = len([f for sid, f in ln.frames if sid == w[1] and f.startswith("ctrl ") and not f.startswith("ctrl 205 ")])
